@@ -7,7 +7,7 @@
     offsets, sizes and row counts agree with the bytes written
     (PQ.WriterProofs). *)
 From Coq Require Import List NArith ZArith.
-From PQ Require Import Bytes Schema Dremel DremelProofs MetaTypes Writer WriterProofs FileSpec PageProofs SchemaProofs ValidatorProofs.
+From PQ Require Import Bytes Schema Dremel DremelProofs MetaTypes Writer WriterProofs FileSpec PageProofs SchemaProofs ValidatorProofs FooterBounds.
 Import ListNotations.
 Local Open Scope N_scope.
 
@@ -106,3 +106,16 @@ Example C02_example_valid :
   exists v, check_file Tiny.dcmp (file_of_batches Tiny.cmp Tiny.cfg0 [[Tiny.rA; Tiny.rB]]) = inr v /\
             view_records v = [Tiny.rA; Tiny.rB] /\ map rv_rows (fv_rgs v) = [2%N].
 Proof. split; [apply Tiny.tiny_sizes_ok | split; [apply Tiny.tiny_sizes_ok | exact Tiny.tiny_file_valid]]. Qed.
+
+(** [sizes_ok] follows from conditions on the inputs alone (names, schema size,
+    batch sizes, size of the data section): PQ.FooterBounds. *)
+Theorem C02_sizes_ok_from_inputs : forall compress M cfg bs,
+  Forall (batch_sizes_ok compress cfg) bs ->
+  In (cfg_codec cfg) [CODEC_UNCOMPRESSED; CODEC_SNAPPY; CODEC_GZIP] ->
+  shape_names_ok (cfg_fields cfg) -> 4 <= M -> shape_names_le M (cfg_fields cfg) ->
+  footer_len_bound M (columns (cfg_fields cfg)) (nlen bs) < 2 ^ 32 ->
+  Forall (fun b => nlen b < 2 ^ 31) bs ->
+  nlen (data_section compress cfg bs) + 4 < 2 ^ 62 ->
+  sizes_ok compress cfg bs.
+Proof. exact sizes_ok_written. Qed.
+Print Assumptions C02_sizes_ok_from_inputs.
